@@ -3,7 +3,7 @@ from __future__ import annotations
 
 from .mutants import G, GRAM, M, PARS, SUB, TKR, TKZ
 
-ALLP = ["C%02d" % i for i in range(1, 19) if i != 17]
+ALLP = ["C%02d" % i for i in range(1, 19)]
 
 MUTANTS2 = [
     # ------------------------------------------------------------------ C05
